@@ -325,7 +325,7 @@ def _around(vals, top):
     v = sorted(vals)
     picks = {0, 1, 2, v[0] - 1, v[0], v[0] + 1, v[len(v) // 4], v[len(v) // 2], v[len(v) // 2] + 1,
              v[(3 * len(v)) // 4], v[-1], v[-1] + 1}
-    picks.update(v[0] + (q * (v[-1] - v[0])) // 8 for q in range(1, 8))
+    picks.update(v[0] + (q * (v[-1] - v[0])) // 6 for q in range(1, 6))
     return sorted(k for k in picks if 0 <= k <= top)
 
 
@@ -350,34 +350,39 @@ def big_jobs(rng, quick):
                         A[j, i] = A[i, j]
         return shuffled(A)
 
-    def add(fn, src, A, ks=None):
-        j = job_of(rng, fn, src, A, None if ks is None else [2 * k for k in ks], p_plain=0.5)
-        jobs.append(j)
+    def add(fn, src, A, b2s=None):
+        if quick and b2s is not None and len(b2s) > 6:       # quick tier: six of the bounds
+            b2s = sorted(rng.sample(b2s, 6))
+        jobs.append(job_of(rng, fn, src, A, b2s, p_plain=0.5))
 
     for rep in range(1 if quick else 3):
         # a clique of m > 127 nodes with a path attached and isolated nodes: the (m-1)-core is the
         # clique, its size and the coreness of its members exceed 127
-        m, tail, iso = rng.randint(129, 136), rng.randint(2, 4), rng.randint(0, 2)
-        n = m + tail + iso
-        A = np.zeros((n, n))
-        A[:m, :m] = 1 - np.eye(m)
-        for t in range(tail):
-            u, v = (m - 1 if t == 0 else m + t - 1), m + t
-            A[u, v] = A[v, u] = 1
-        A = shuffled(A)
-        add("kcore_bu", "big-clique+path", A, [0, 1, 2, 3, m - 2, m - 1, m, m + 1])
-        add("kcoreness_centrality_bu", "big-clique+path", A)
+        # (thorough tier, once: beyond 255)
+        for m in [rng.randint(129, 136)] + ([rng.randint(257, 262)] if not quick and rep == 0 else []):
+            tail, iso = rng.randint(2, 4), rng.randint(0, 2)
+            n = m + tail + iso
+            A = np.zeros((n, n))
+            A[:m, :m] = 1 - np.eye(m)
+            for t in range(tail):
+                u, v = (m - 1 if t == 0 else m + t - 1), m + t
+                A[u, v] = A[v, u] = 1
+            A = shuffled(A)
+            add("kcore_bu", "big-clique+path", A, [2 * k for k in (1, 2, 3, m - 2, m - 1, m)])
+            add("kcoreness_centrality_bu", "big-clique+path", A)
         # dense G(n,p): degrees straddle 127 (n about 140) / in+out degrees straddle 127 and 255
         # (a dense block and a sparser periphery, so that the cores do not collapse all at once)
         n = rng.randint(140, 156)
         A = planted(n, 0.96, 0.55, True)
-        add("kcore_bu", "big-dense", A, _around(A.sum(axis=0).astype(int).tolist(), n))
-        n = rng.choice([rng.randint(70, 80), rng.randint(134, 146)])
-        A = planted(n, 0.97, 0.6, False)
-        deg = (A.sum(axis=0) + A.sum(axis=1)).astype(int).tolist()
-        add("kcore_bd", "big-dense", A, _around(deg, 2 * n))
-        if not quick or rep == 0:
-            add("kcoreness_centrality_bd", "big-dense", A)
+        if not quick:
+            add("kcore_bu", "big-dense", A, [2 * k for k in _around(A.sum(axis=0).astype(int).tolist(), n)])
+        for n in [rng.randint(88, 96), rng.randint(160, 176)]:
+            A = planted(n, 0.97, 0.6, False)
+            deg = (A.sum(axis=0) + A.sum(axis=1)).astype(int).tolist()
+            if n > 100 or not quick:
+                add("kcore_bd", "big-dense", A, [2 * k for k in _around(deg, 2 * n)])
+            if n < 100 or not quick:
+                add("kcoreness_centrality_bd", "big-dense", A)
         # a long path with a triangle at one end: peeled from the free end, > 127 rounds for k = 2
         n = rng.randint(133, 140)
         A = np.zeros((n, n))
@@ -386,17 +391,17 @@ def big_jobs(rng, quick):
         for i in range(3):
             for j in range(i):
                 A[i, j] = A[j, i] = 1
-        add("kcore_bu", "big-path", shuffled(A), [1, 2, 3])
+        if not quick:
+            add("kcore_bu", "big-path", shuffled(A), [2, 4, 6])
         # dense weighted: strengths beyond 255, core sizes beyond 127
         n = rng.randint(130, 144)
         A = planted(n, 0.9, 0.5, True, wmax=3)
         st = A.sum(axis=0).astype(int).tolist()
-        j = job_of(rng, "score_wu", "big-dense", A, None, p_plain=0.5)
         v = sorted(st)
-        j["b2s"] = sorted({0, 1, 2 * v[0] - 1, 2 * v[0], 2 * v[0] + 1, 2 * v[len(v) // 4], 2 * v[len(v) // 2],
-                           2 * v[len(v) // 2] + 1, 2 * v[(3 * len(v)) // 4], 2 * v[-1], 2 * v[-1] + 1}
-                          | {2 * v[0] + (q * (v[-1] - v[0])) // 4 for q in range(1, 8)})
-        jobs.append(j)
+        add("score_wu", "big-dense", A,
+            sorted({1, 2 * v[0] - 1, 2 * v[0], 2 * v[0] + 1, 2 * v[len(v) // 4], 2 * v[len(v) // 2],
+                    2 * v[len(v) // 2] + 1, 2 * v[(3 * len(v)) // 4], 2 * v[-1], 2 * v[-1] + 1}
+                   | {2 * v[0] + (q * (v[-1] - v[0])) // 3 for q in range(1, 6)}))
     return jobs
 
 
@@ -462,7 +467,7 @@ def build_jobs(ctx):
             jobs.append(job_of(rng, "kcoreness_centrality_" + kind, src, A, p_plain=0.4))
     # ---- scale regimes (own generator: the draws above stay what they were)
     rng2 = random.Random("%s/C15-scale" % ctx.seed)
-    for t in range(250 if ctx.quick else 4000):
+    for t in range(160 if ctx.quick else 4000):
         jobs.append(near_job(rng2))
     jobs += big_jobs(rng2, ctx.quick)
     return jobs
@@ -497,7 +502,15 @@ def run(ctx):
     if hung > 0.05 * len(probe):
         raise core.MachineryError("%d of %d probe calls did not return within 6 s" % (hung, len(probe)))
     recs = [_fill(j, r) for j, r in zip(jobs, pool.run_jobs(__name__, jobs, limit=10.0))]
-    verdicts = ctx.validate(*TRACE, recs, chunk=3000)
+    # the few large records are judged beside the many small ones
+    big = [k for k, j in enumerate(jobs) if j["src"].startswith("big-")]
+    small = [k for k in range(len(jobs)) if k not in set(big)]
+    parts = ctx.parallel([lambda: ctx.validate(*TRACE, [recs[k] for k in small], chunk=3000),
+                          lambda: ctx.validate(*TRACE, [recs[k] for k in big], tag="Trace_KCore_big")], width=2)
+    verdicts = [None] * len(jobs)
+    for ks, vs in zip((small, big), parts):
+        for k, v in zip(ks, vs):
+            verdicts[k] = v
     ctx.judge(jobs, rc.tag_failures(ctx, jobs, recs, verdicts), verdicts, what)
     ctx.extra["argument_variants"] = rc.variant_counts(jobs)
     # non-trivial: distinct (fn, input) where for some bound > 0 the core is non-empty and
